@@ -306,7 +306,7 @@ func agreeValue(s ref.Schema, d ref.Datum, ts spec.TypeSpec, v reflect.Value, di
 			return fmt.Errorf("%s: Go map of %d vs datum map of %d", path, v.Len(), len(m))
 		}
 		for k, dv := range m {
-			ev := v.MapIndex(reflect.ValueOf(k))
+			ev := v.MapIndex(reflect.ValueOf(k).Convert(v.Type().Key()))
 			if !ev.IsValid() {
 				return fmt.Errorf("%s: key %q missing", path, k)
 			}
